@@ -456,6 +456,9 @@ def _normalize_python_version_specifier(marker: MarkerExpression) -> BaseSpecifi
     splitted = [p.strip() for p in value.split(".")]
     if len(splitted) > 2 or "*" in splitted:
         return marker.specifier
+    if len(splitted) == 1:
+        # python_version is always X.Y, so a bare major "3" means "3.0"
+        splitted.append("0")
     if op in ("==", "!="):
         splitted.append("*")
     elif op == ">":
